@@ -242,7 +242,7 @@ func runC06(c *core.Ctx) {
 		}
 	}
 	// ---- R6.2 (b) serialiser cases / R6.3
-	ser := c.P.Func(relBatched, "(*conn).batchIntoBuffer")
+	ser := findFunc(c, relBatched, "(*conn).batchIntoBuffer", rolePoolSerialiser)
 	if ser == nil {
 		c.Undecided("R6.2", "batched.(*conn).batchIntoBuffer", "-", "serialiser not found")
 	} else {
@@ -332,7 +332,7 @@ func runC06(c *core.Ctx) {
 		c.Check(cntOK, "R6.3", "batchIntoBuffer#reply-count", c.P.Pos(ser.Pos()), "expected replies are counted per reply channel", "the number of expected replies is not recorded per reply channel")
 	}
 	// reader: channel chosen by the reply's opaque only
-	rd := c.P.Func(relBatched, "(*conn).reader")
+	rd := findFunc(c, relBatched, "(*conn).reader", rolePoolReader)
 	if rd == nil {
 		c.Undecided("R6.3", "batched.(*conn).reader", "-", "reader not found")
 		return
